@@ -1062,3 +1062,68 @@ def controlling_switches_discr(fn, b):
 def loop_heads(fn):
     """blocks that call Iterator::next (loop heads of `for` loops)"""
     return [b for b, t in fn.calls() if re.search(r'Iterator>::next$', fn.callee_name(t))]
+
+
+# --------------------------------------------------------------------------------------------
+# C03: empty patterns are rejected before any state is built
+# --------------------------------------------------------------------------------------------
+
+EMPTY_COND_OK = re.compile(r'(Iterator>::next$|Iterator::enumerate$|Iterator>::enumerate$|IntoIterator>::into_iter$|slice::<impl \[T\]>::iter$|Deref>::deref$|Properties::minimum_len$|Hir::properties$|Pattern::hir$|PartialEq.*>::eq$|Automaton>?::has_empty$|DFA<.*>::has_empty$)')
+
+
+def rule_empty_rejected(rep, crate):
+    rid = rep.rule('M-C03b', 'empty-matching patterns are rejected: in Graph::new the construction of states (get_states) is reachable only through the false edge of dfa.has_empty(); the true edge records GraphError::EmptyMatch for the leaves whose minimum length is 0 (a test that looks at nothing but minimum_len) and returns', floor=3)
+    fn = crate.fns.get('graph::Graph::new')
+    if not rep.anchor(rid, 'fn Graph::new', fn is not None):
+        return
+    guard = None
+    for sb in switches(fn):
+        c = cond_of_switch(fn, sb)
+        if c and c['root'][0] == 'call' and re.search(r'has_empty$', fn.callee_name(c['root'][2])):
+            guard = c
+    if not rep.anchor(rid, 'branch on dfa.has_empty() in Graph::new', guard is not None):
+        return
+    gs = find_calls(fn, r'dfa_util::get_states$')
+    rep.inst(rid, 'Graph::new:has_empty-guard', detail=dict(get_states=len(gs)))
+    if not gs:
+        rep.viol(rid, 'empty:no-get_states', 'get_states call not found', loc(fn))
+    for b, t in gs:
+        if not fn.edge_dominates((guard['bb'], guard['f']), b):
+            rep.viol(rid, 'empty:states-built', 'state construction is reachable although dfa.has_empty() holds: a definition with an empty-matching pattern can be compiled', loc(fn, t['line']))
+    tregion = {b for b in fn.live_blocks() if fn.edge_dominates((guard['bb'], guard['t']), b)}
+    pushes = []
+    for b, t in find_calls(fn, r'vec::Vec::<T, A>::push$'):
+        if b in tregion and desc(fn, t['args'][1]).startswith('agg:graph::GraphError::EmptyMatch'):
+            pushes.append((b, t))
+    rep.inst(rid, 'Graph::new:empty-push', detail=len(pushes))
+    if not pushes:
+        rep.viol(rid, 'empty:no-error', 'no GraphError::EmptyMatch is recorded on the has_empty() edge', loc(fn))
+    from mirlib import controlling_switches
+    for b, t in pushes:
+        for sb in controlling_switches(fn, b):
+            if sb not in tregion:
+                continue
+            sl = fn.slice(fn.blocks[sb]['term']['discr'])
+            bad = sorted(c for c in sl.calls if not EMPTY_COND_OK.search(c))
+            if bad or ('kind' in sl.field_names()) or ('callback' in sl.field_names()):
+                rep.viol(rid, 'empty:extra-condition', 'the EmptyMatch error is additionally conditioned on %s %s: some empty-matching patterns are let through' % (bad[:3], sorted(sl.field_names() & {'kind', 'callback', 'priority'})), loc(fn, fn.blocks[sb]['term']['line']))
+    # in generate the EmptyMatch arm records an error: covered by M-C19b (graph-error-arm)
+
+
+def rule_nfa_mode(rep, crate):
+    rid = rep.rule('M-C04b', 'the NFA is compiled in UTF-8 mode exactly when the definition is in str mode: thompson::Config::utf8 receives config.utf8_mode and nothing else', floor=1)
+    g = crate.fns.get('graph::Graph::new')
+    if not rep.anchor(rid, 'fn Graph::new', g is not None):
+        return
+    calls = find_calls(g, r'thompson::Config::utf8$')
+    d = [desc(g, t['args'][1]) for _b, t in calls]
+    rep.inst(rid, 'Graph::new:nfa-utf8', detail=d)
+    if d != ['param2.utf8_mode']:
+        rep.viol(rid, 'nfa-utf8-arg', 'thompson::Config::utf8 is given %s, expected config.utf8_mode' % d, loc(g))
+    gen = crate.fns.get(GEN)
+    if gen is not None:
+        for b, t in find_calls(gen, r'graph::Graph::new$'):
+            cd = desc(gen, t['args'][1])
+            rep.inst(rid, 'generate:config', detail=cd[:200])
+            if not re.fullmatch(r'agg:graph::Config\{utf8_mode=call:std::option::Option::<T>::unwrap_or\(call:std::option::Option::<T>::map\(call:std::option::Option::<T>::as_ref\(call:<parser::Parser as std::default::Default>::default\.utf8_mode\),fn:syn::LitBool::value\),const:1\)\}', cd):
+                rep.viol(rid, 'config-utf8', 'graph::Config is built as %s, expected utf8_mode = parser.utf8_mode.map(value).unwrap_or(true)' % cd[:200], loc(gen, t['line']))
